@@ -60,6 +60,10 @@ pub struct C14Cfg {
     /// the store must have the same tip and channel monitors as the live one
     #[serde(default)]
     pub monitors: bool,
+    /// the channel is created and set up while a streamed block is in flight (between its first
+    /// and second chunk); the base blocks after that are delivered compact
+    #[serde(default)]
+    pub midstream: bool,
 }
 
 #[derive(Clone, Debug, PartialEq, Eq, Hash, Serialize, Deserialize)]
@@ -112,16 +116,29 @@ impl C14Model {
     /// build the world up to the start of the explored region
     fn fresh(&self) -> (World, Funded, SimChain, Vec<(T, Transaction)>) {
         let w = World::new(wcfg());
-        let f = fund_channel(&w, 1, self.cfg.anchors, true);
-        let mut chain = w.new_sim_chain();
-        // one empty block first: the tip recorded without a filter header skips proof checking,
-        // and a monitor that never saw a block ignores pushes
-        let b = make_block(&chain.tip().0, chain.height() + 1, 0, vec![]);
-        let r = w.connect(&mut chain, b, self.cfg.delivery);
-        assert!(r.is_ok(), "base block: {}", r.tag());
+        let (f, mut chain) = if self.cfg.midstream {
+            let mut chain = w.new_sim_chain();
+            let b = make_block(&chain.tip().0, chain.height() + 1, 0, vec![]);
+            assert!(w.connect(&mut chain, b, Delivery::Compact).is_ok());
+            let mut f = None;
+            let b = make_block(&chain.tip().0, chain.height() + 1, 5, vec![]);
+            let r = w.connect_streamed_with(&mut chain, b, || f = Some(fund_channel(&w, 1, self.cfg.anchors, true)));
+            assert!(r.is_ok(), "mid-stream block: {}", r.tag());
+            (f.unwrap(), chain)
+        } else {
+            let f = fund_channel(&w, 1, self.cfg.anchors, true);
+            let mut chain = w.new_sim_chain();
+            // one empty block first: the tip recorded without a filter header skips proof checking,
+            // and a monitor that never saw a block ignores pushes
+            let b = make_block(&chain.tip().0, chain.height() + 1, 0, vec![]);
+            let r = w.connect(&mut chain, b, self.cfg.delivery);
+            assert!(r.is_ok(), "base block: {}", r.tag());
+            (f, chain)
+        };
+        let base_delivery = if self.cfg.midstream { Delivery::Compact } else { self.cfg.delivery };
         if matches!(self.cfg.scen, Scen::HolderClose | Scen::CpClose | Scen::HolderHtlcsOut) {
             let b = make_block(&chain.tip().0, chain.height() + 1, 0, vec![f.funding_tx.clone()]);
-            let r = w.connect(&mut chain, b, self.cfg.delivery);
+            let r = w.connect(&mut chain, b, base_delivery);
             assert!(r.is_ok(), "funding block: {}", r.tag());
         }
         let mut base_conf = vec![];
@@ -133,7 +150,7 @@ impl C14Model {
                 txs.push(tx);
             }
             let b = make_block(&chain.tip().0, chain.height() + 1, 3, txs);
-            let r = w.connect(&mut chain, b, self.cfg.delivery);
+            let r = w.connect(&mut chain, b, base_delivery);
             assert!(r.is_ok(), "close block: {}", r.tag());
         }
         // the explored region starts here
@@ -330,7 +347,7 @@ impl Model for C14Model {
             self.cfg.max_block,
             if self.cfg.restart { ",restart" } else { "" },
             if self.cfg.deep { ",reorg-window-macros" } else { "" }
-        ) + if self.cfg.monitors { ",monitors" } else { "" }
+        ) + if self.cfg.monitors { ",monitors" } else { "" } + if self.cfg.midstream { ",channel set up mid-stream" } else { "" }
     }
 
     fn init(&self) -> C14State {
@@ -485,10 +502,13 @@ impl Model for C14Model {
             let fresh = catch(|| {
                 let (w2, f2, base, base_conf) = self.fresh();
                 let mut st2 = C14State { remembered: 0, w: Some(w2), f: f2, chain: base, names: vec![], dead: false, base_conf };
+                // the replay of the mid-stream configurations delivers compact: the view may not
+                // depend on how the blocks were delivered either
+                let replay_delivery = if self.cfg.midstream { Delivery::Compact } else { self.cfg.delivery };
                 for n in &names {
                     let b = self.build_block(&st2, n);
                     let w = st2.w.as_ref().unwrap();
-                    let r = w.connect(&mut st2.chain, b, self.cfg.delivery);
+                    let r = w.connect(&mut st2.chain, b, replay_delivery);
                     if !r.is_ok() {
                         return Err(format!("fresh replay of {:?} failed: {}", n, r.tag()));
                     }
@@ -527,22 +547,24 @@ pub fn configs(tier: Tier) -> Vec<C14Cfg> {
     let mut v = vec![];
     match tier {
         Tier::Quick => {
-            v.push(C14Cfg { scen: Scen::Funding, anchors: false, delivery: Delivery::Compact, max_chain: 3, max_block: 2, restart: false, deep: false, monitors: false });
-            v.push(C14Cfg { scen: Scen::HolderClose, anchors: false, delivery: Delivery::Compact, max_chain: 2, max_block: 2, restart: false, deep: false, monitors: false });
-            v.push(C14Cfg { scen: Scen::CpClose, anchors: true, delivery: Delivery::Streamed, max_chain: 2, max_block: 2, restart: false, deep: false, monitors: false });
-            v.push(C14Cfg { scen: Scen::Funding, anchors: false, delivery: Delivery::Compact, max_chain: 1, max_block: 1, restart: false, deep: true, monitors: false });
-            v.push(C14Cfg { scen: Scen::HolderHtlcsOut, anchors: false, delivery: Delivery::Compact, max_chain: 2, max_block: 2, restart: false, deep: false, monitors: false });
+            v.push(C14Cfg { scen: Scen::Funding, anchors: false, delivery: Delivery::Compact, max_chain: 3, max_block: 2, restart: false, deep: false, monitors: false, midstream: false });
+            v.push(C14Cfg { scen: Scen::HolderClose, anchors: false, delivery: Delivery::Compact, max_chain: 2, max_block: 2, restart: false, deep: false, monitors: false, midstream: false });
+            v.push(C14Cfg { scen: Scen::CpClose, anchors: true, delivery: Delivery::Streamed, max_chain: 2, max_block: 2, restart: false, deep: false, monitors: false, midstream: false });
+            v.push(C14Cfg { scen: Scen::Funding, anchors: false, delivery: Delivery::Compact, max_chain: 1, max_block: 1, restart: false, deep: true, monitors: false, midstream: false });
+            v.push(C14Cfg { scen: Scen::HolderHtlcsOut, anchors: false, delivery: Delivery::Compact, max_chain: 2, max_block: 2, restart: false, deep: false, monitors: false, midstream: false });
+            v.push(C14Cfg { scen: Scen::HolderClose, anchors: false, delivery: Delivery::Streamed, max_chain: 2, max_block: 2, restart: false, deep: false, monitors: false, midstream: true });
         }
         Tier::Thorough => {
             for delivery in [Delivery::Compact, Delivery::Streamed] {
-                v.push(C14Cfg { scen: Scen::Funding, anchors: false, delivery, max_chain: 4, max_block: 3, restart: true, deep: false, monitors: false });
+                v.push(C14Cfg { scen: Scen::Funding, anchors: false, delivery, max_chain: 4, max_block: 3, restart: true, deep: false, monitors: false, midstream: false });
                 for anchors in [false, true] {
-                    v.push(C14Cfg { scen: Scen::HolderClose, anchors, delivery, max_chain: 3, max_block: 3, restart: false, deep: false, monitors: false });
-                    v.push(C14Cfg { scen: Scen::CpClose, anchors, delivery, max_chain: 3, max_block: 3, restart: false, deep: false, monitors: false });
+                    v.push(C14Cfg { scen: Scen::HolderClose, anchors, delivery, max_chain: 3, max_block: 3, restart: false, deep: false, monitors: false, midstream: false });
+                    v.push(C14Cfg { scen: Scen::CpClose, anchors, delivery, max_chain: 3, max_block: 3, restart: false, deep: false, monitors: false, midstream: false });
                 }
-                v.push(C14Cfg { scen: Scen::Full, anchors: false, delivery, max_chain: 3, max_block: 2, restart: false, deep: false, monitors: false });
-                v.push(C14Cfg { scen: Scen::HolderHtlcsOut, anchors: delivery == Delivery::Streamed, delivery, max_chain: 3, max_block: 2, restart: true, deep: false, monitors: false });
-                v.push(C14Cfg { scen: Scen::Funding, anchors: false, delivery, max_chain: 2, max_block: 2, restart: true, deep: true, monitors: false });
+                v.push(C14Cfg { scen: Scen::Full, anchors: false, delivery, max_chain: 3, max_block: 2, restart: false, deep: false, monitors: false, midstream: false });
+                v.push(C14Cfg { scen: Scen::HolderHtlcsOut, anchors: delivery == Delivery::Streamed, delivery, max_chain: 3, max_block: 2, restart: true, deep: false, monitors: false, midstream: false });
+                v.push(C14Cfg { scen: Scen::Funding, anchors: false, delivery, max_chain: 2, max_block: 2, restart: true, deep: true, monitors: false, midstream: false });
+                v.push(C14Cfg { scen: if delivery == Delivery::Streamed { Scen::HolderClose } else { Scen::CpClose }, anchors: delivery == Delivery::Compact, delivery: Delivery::Streamed, max_chain: 3, max_block: 2, restart: true, deep: false, monitors: false, midstream: true });
             }
         }
     }
@@ -576,13 +598,13 @@ pub fn explore_monitored(tier: Tier, wall_s: f64) -> ChainRun {
     let mut cfgs = vec![];
     match tier {
         Tier::Quick => {
-            cfgs.push(C14Cfg { scen: Scen::HolderClose, anchors: false, delivery: Delivery::Compact, max_chain: 2, max_block: 2, restart: false, deep: false, monitors: true });
+            cfgs.push(C14Cfg { scen: Scen::HolderClose, anchors: false, delivery: Delivery::Compact, max_chain: 2, max_block: 2, restart: false, deep: false, monitors: true, midstream: false });
         }
         Tier::Thorough => {
-            cfgs.push(C14Cfg { scen: Scen::Funding, anchors: false, delivery: Delivery::Compact, max_chain: 3, max_block: 2, restart: false, deep: false, monitors: true });
-            cfgs.push(C14Cfg { scen: Scen::HolderClose, anchors: false, delivery: Delivery::Compact, max_chain: 3, max_block: 2, restart: false, deep: false, monitors: true });
-            cfgs.push(C14Cfg { scen: Scen::CpClose, anchors: true, delivery: Delivery::Streamed, max_chain: 3, max_block: 2, restart: false, deep: false, monitors: true });
-            cfgs.push(C14Cfg { scen: Scen::Full, anchors: false, delivery: Delivery::Compact, max_chain: 2, max_block: 2, restart: false, deep: false, monitors: true });
+            cfgs.push(C14Cfg { scen: Scen::Funding, anchors: false, delivery: Delivery::Compact, max_chain: 3, max_block: 2, restart: false, deep: false, monitors: true, midstream: false });
+            cfgs.push(C14Cfg { scen: Scen::HolderClose, anchors: false, delivery: Delivery::Compact, max_chain: 3, max_block: 2, restart: false, deep: false, monitors: true, midstream: false });
+            cfgs.push(C14Cfg { scen: Scen::CpClose, anchors: true, delivery: Delivery::Streamed, max_chain: 3, max_block: 2, restart: false, deep: false, monitors: true, midstream: false });
+            cfgs.push(C14Cfg { scen: Scen::Full, anchors: false, delivery: Delivery::Compact, max_chain: 2, max_block: 2, restart: false, deep: false, monitors: true, midstream: false });
         }
     }
     let mut stats = BfsStats { closed: true, ..Default::default() };
